@@ -239,6 +239,14 @@ void __wrap_abort(void)
             faults_descr());
 }
 
+/* shutdown() is not interposed by the shim: a forked child that shuts down an inherited socket alters the owner's */
+int __real_shutdown(int fd, int how);
+int __wrap_shutdown(int fd, int how)
+{
+    env_note_child_call("shutdown", fd);
+    return __real_shutdown(fd, how);
+}
+
 /* ---- API call wrapper ---------------------------------------------------------------------------------------- */
 #define LAPI(name, call) ({                                  \
     snprintf(g_cur_api, sizeof g_cur_api, "%s", name);       \
@@ -772,6 +780,18 @@ static void do_fork(void)
         g_in_child = 1;
         for (int i = g_nsocks - 1; i >= 0; i--)
             LAPI("xcm_cleanup", (xcm_cleanup(g_socks[i]), 0));
+        /* what the child did to kernel objects it shares with its parent (recorded by the shim call by call) */
+        char what[64];
+        int nalt = env_child_alterations(what, sizeof what);
+        if (nalt > 0) {
+            char sig[200];
+            snprintf(sig, sizeof sig, "C08/cleanup-altered-owner/%s/in-forked-child/tp=%s", what, g_tp);
+            VIOL(sig, "xcm_cleanup in the forked child issued %d call(s) that alter a kernel object shared with the owner "
+                      "through an inherited descriptor (first: %s); the owner's epoll set / timer / socket is changed "
+                      "behind its back; scenario %s forkat=%d, injected fault(s): %s", nalt, what, g_sc, g_forkat,
+                 faults_descr());
+            _exit(0);
+        }
         /* judged in the measured repetition, and only if no fault before the fork has already left something
            behind in the parent (that is reported at the end, once) */
         if (g_rep != 1 || g_rep_faults > 0)
@@ -1127,6 +1147,8 @@ static void sc_abandon(const char *phase)
             if (rc >= 0)
                 raw_add(rc);
         }
+        do_finish(c);
+        boundary();                                /* 1: attempt in progress (fork scenarios) */
         for (int i = 0; i < 3; i++)
             do_finish(c);
         mc_observe("abandoned in phase %s (finish -> %s)", phase, errname(errno));
